@@ -244,6 +244,8 @@ func c19buildEnv() (*c19env, error) {
 	imm(`string:1KiB("abc "x256)`, "big", ugo.String(c19kib()))
 	mut("bytes:empty", "empty", func() ugo.Object { return ugo.Bytes{} })
 	mut("bytes:[1 2 255]", "", func() ugo.Object { return ugo.Bytes{1, 2, 255} })
+	mut("bytes:56", "mid", func() ugo.Object { return ugo.Bytes(strings.Repeat("\xfb\x00a", 19)[:56]) })
+	mut("bytes:770", "mid", func() ugo.Object { return ugo.Bytes(strings.Repeat("\xfb\x00a", 257)[:770]) })
 	mut("array:[]", "empty", func() ugo.Object { return ugo.Array{} })
 	mut(`array:[1,"a"]`, "", func() ugo.Object { return ugo.Array{ugo.Int(1), ugo.String("a")} })
 	mut("array:nested", "nested", func() ugo.Object {
